@@ -178,15 +178,18 @@ Definition sync_sec (m : mode) (sd : secdef) (old : merged) (s : section_in) : m
   | SValue c es => calc m sd c es
   end.
 
-(* ---------- the handler's cache over ConfigMap events ---------- *)
+(* ---------- the handler's cache, the informer cache and the reconciler over ConfigMap events ---------- *)
 Notation cmap := (list section_in).   (* positional: one per section of [sds]; missing = absent *)
 
 Inductive op :=
 | OSync (c : cmap)              (* Create, or Update with changed Data, of the slo-controller ConfigMap *)
-| ONop                          (* Update with equal Data, Delete, event for another ConfigMap *)
-| OAvail (c : option cmap).     (* IsCfgAvailable(): lazy sync from the informer cache; None = not found *)
+| OSame (c : cmap)              (* Update with equal Data: the handler ignores the event *)
+| ODelete                       (* Delete: the handler ignores the event; the informer loses the object *)
+| OOther                        (* event for another ConfigMap *)
+| OAvail (c : option cmap).     (* informer content set to [c] (None = not found), explicit IsCfgAvailable() *)
 
-Record state := mkState { st_secs : list merged; st_avail : bool }.
+(* st_inf: the slo-controller ConfigMap as the informer cache (the client) has it *)
+Record state := mkState { st_secs : list merged; st_avail : bool; st_inf : option cmap }.
 
 Fixpoint sync_secs (m : mode) (sds : list secdef) (olds : list merged) (c : cmap) : list merged :=
   match sds, olds with
@@ -195,19 +198,41 @@ Fixpoint sync_secs (m : mode) (sds : list secdef) (olds : list merged) (c : cmap
   | _, _ => []
   end.
 
-Definition init (sds : list secdef) : state := mkState (map default_of sds) false.
-
-Definition step (m : mode) (sds : list secdef) (st : state) (o : op) : state :=
-  match o with
-  | OSync c => mkState (sync_secs m sds (st_secs st) c) true
-  | ONop => st
-  | OAvail oc =>
-      if st_avail st then st
-      else match oc with
-           | Some c => mkState (sync_secs m sds (st_secs st) c) true
-           | None => mkState (map default_of sds) true
-           end
+(* syncConfig(configMap); nil = ConfigMap not found: all defaults *)
+Definition sync_from (m : mode) (sds : list secdef) (olds : list merged) (oc : option cmap)
+  : list merged :=
+  match oc with
+  | Some c => sync_secs m sds olds c
+  | None => map default_of sds
   end.
+
+Definition init (sds : list secdef) : state := mkState (map default_of sds) false None.
+
+Definition inf_after (inf : option cmap) (o : op) : option cmap :=
+  match o with
+  | OSync c => Some c
+  | OSame c => Some c
+  | ODelete => None
+  | OOther => inf
+  | OAvail oc => oc
+  end.
+
+(* the event handler (EnqueueRequestForConfigMap.Create/Update/Delete) *)
+Definition handle (m : mode) (sds : list secdef) (st : state) (o : op) : state :=
+  match o with
+  | OSync c => mkState (sync_secs m sds (st_secs st) c) true (Some c)
+  | _ => mkState (st_secs st) (st_avail st) (inf_after (st_inf st) o)
+  end.
+
+(* IsCfgAvailable(): called explicitly (OAvail) and at the start of every Reconcile; while the cache
+   was never synced it syncs from the informer cache *)
+Definition ensure_avail (m : mode) (sds : list secdef) (st : state) : state :=
+  if st_avail st then st
+  else mkState (sync_from m sds (st_secs st) (st_inf st)) true (st_inf st).
+
+(* one event followed by the reconciliation of the probe nodes *)
+Definition step (m : mode) (sds : list secdef) (st : state) (o : op) : state :=
+  ensure_avail m sds (handle m sds st o).
 
 Definition run_state (m : mode) (sds : list secdef) (ops : list op) : state :=
   fold_left (step m sds) ops (init sds).
@@ -225,22 +250,67 @@ Definition effective (ls : labels) (mg : merged) : cfg :=
   | None => mg_cluster mg
   end.
 
-(* all probe nodes, all sections *)
-Definition observe (nodes : list labels) (st : state) : list cfg :=
-  flat_map (fun ls => map (effective ls) (st_secs st)) nodes.
+(* the spec computed for every probe node: all sections *)
+Definition computed (nodes : list labels) (st : state) : list (list cfg) :=
+  map (fun ls => map (effective ls) (st_secs st)) nodes.
 
-(* the observation after every operation *)
-Fixpoint run_from (m : mode) (sds : list secdef) (nodes : list labels) (st : state) (ops : list op)
-  : list (list cfg) :=
+Definition observe (nodes : list labels) (st : state) : list cfg := concat (computed nodes st).
+
+(* ---------- delivery: Reconcile writes the computed spec into the node's NodeSLO ---------- *)
+Definition list_eqb {A} (f : A -> A -> bool) : list A -> list A -> bool :=
+  fix go (xs ys : list A) {struct xs} : bool :=
+    match xs, ys with
+    | [], [] => true
+    | x :: xs', y :: ys' => f x y && go xs' ys'
+    | _, _ => false
+    end.
+
+Definition optZ_eqb (a b : option Z) : bool :=
+  match a, b with
+  | None, None => true
+  | Some x, Some y => x =? y
+  | _, _ => false
+  end.
+
+Fixpoint cfg_eqb (a b : cfg) {struct a} : bool :=
+  match a, b with
+  | Leaf r o, Leaf r' o' => Bool.eqb r r' && optZ_eqb o o'
+  | Obj None, Obj None => true
+  | Obj (Some x), Obj (Some y) => list_eqb cfg_eqb x y
+  | Arr x, Arr y => list_eqb cfg_eqb x y
+  | Map x, Map y => list_eqb (fun p q => (fst p =? fst q) && (snd p =? snd q)) x y
+  | _, _ => false
+  end.
+
+(* stored = None: the NodeSLO does not exist yet and is created with the computed spec;
+   otherwise it is updated iff the computed spec differs from the stored one *)
+Definition deliver_node (stored : option (list cfg)) (c : list cfg) : list cfg :=
+  match stored with
+  | None => c
+  | Some s => if list_eqb cfg_eqb c s then s else c
+  end.
+
+Fixpoint deliver (stored : list (option (list cfg))) (comp : list (list cfg)) : list (list cfg) :=
+  match comp with
+  | [] => []
+  | c :: ct => deliver_node (hd None stored) c :: deliver (tl stored) ct
+  end.
+
+(* the observation after every operation: the spec DELIVERED to every probe node (NodeSLO.Spec) *)
+Fixpoint run_from (m : mode) (sds : list secdef) (nodes : list labels) (st : state)
+  (dl : list (option (list cfg))) (ops : list op) : list (list cfg) :=
   match ops with
   | [] => []
-  | o :: t => let st' := step m sds st o in observe nodes st' :: run_from m sds nodes st' t
+  | o :: t =>
+      let st' := step m sds st o in
+      let d := deliver dl (computed nodes st') in
+      concat d :: run_from m sds nodes st' (map Some d) t
   end.
 
 Record input := mkInput { in_secs : list secdef; in_nodes : list labels; in_ops : list op }.
 
 Definition run (m : mode) (i : input) : list (list cfg) :=
-  run_from m (in_secs i) (in_nodes i) (init (in_secs i)) (in_ops i).
+  run_from m (in_secs i) (in_nodes i) (init (in_secs i)) [] (in_ops i).
 
 (* ---------- flat wire encoding of a tree (inputs and observables use the same one) ----------
    0 | 1 v        Leaf false None | Some v          6 | 7 v   Leaf true None | Some v
